@@ -669,11 +669,49 @@ func (c *ctx) bigraph(adj refmodel.Adj) {
 	c.op("MakeBiGraph")
 	var bg graph.BiGraph
 	sg := &simenv.SimGraph{Adj: adj}
+	tr := refmodel.Transpose(adj)
+	if n > 0 && c.f.Chance(1, 4) {
+		// fault: the graph's Out crashes once, at a drawn call, while the
+		// transpose is being built (whenever the implementation chooses to
+		// build it); the caller recovers and carries on with the same objects.
+		sg.CrashAt = 1 + c.f.Intn(n)
+		c.fault("graph_out_crash", fmt.Sprintf("Graph.Out panics on call %d during MakeBiGraph / first use", sg.CrashAt))
+		pv := c.try(func() {
+			bg = graph.MakeBiGraph(sg)
+			for u := 0; u < n; u++ {
+				bg.In(u)
+			}
+		})
+		if pv != nil {
+			if _, ok := pv.(*simenv.Crash); !ok {
+				c.fail("bigraph", "MakeBiGraph", "panic", "MakeBiGraph panicked: %v", simkitStr(pv))
+				return
+			}
+			c.probe("callback_crash_propagated")
+		}
+		if bg != nil {
+			// an object was handed out before the crash: it must still be right
+			pv := c.try(func() {
+				for u := 0; u < n; u++ {
+					if !refmodel.SameMultiset(bg.In(u), tr[u]) {
+						c.fail("bigraph", "MakeBiGraph", "in-after-crash", "after Graph.Out crashed once (recovered by the caller), In(%d)=%v, transpose of Out is %v", u, head(bg.In(u)), head(tr[u]))
+						return
+					}
+				}
+			})
+			if pv != nil {
+				c.fail("bigraph", "MakeBiGraph", "panic", "In panicked after a recovered crash: %v", simkitStr(pv))
+			}
+			if c.viol != nil {
+				return
+			}
+		}
+		bg = nil
+	}
 	if pv := c.try(func() { bg = graph.MakeBiGraph(sg) }); pv != nil {
 		c.fail("bigraph", "MakeBiGraph", "panic", "MakeBiGraph panicked: %v", simkitStr(pv))
 		return
 	}
-	tr := refmodel.Transpose(adj)
 	pv := c.try(func() {
 		if bg.NumNodes() != n {
 			c.fail("bigraph", "MakeBiGraph", "nodes", "NumNodes()=%d, want %d", bg.NumNodes(), n)
